@@ -174,8 +174,10 @@ Definition del_signer (st : cstore) (k : height) : cstore :=
   {| recents := del_key k (recents st); pending := pending st; cons := cons st |}.
 (** store.go SetPendingValidators: the empty set marshals to no bytes and is stored as a MISSING entry
     (GetPendingValidators reads a missing entry as the empty set) *)
+Definition pend_of (l : list bytes) : option (list bytes) := match l with [] => None | _ => Some l end.
+Definition pend_read (p : option (list bytes)) : list bytes := match p with Some v => v | None => [] end.
 Definition set_pending (st : cstore) (v : list bytes) : cstore :=
-  {| recents := recents st; pending := match v with [] => None | _ => Some v end; cons := cons st |}.
+  {| recents := recents st; pending := pend_of v; cons := cons st |}.
 Definition set_cons (st : cstore) (k : height) (c : consstate) : cstore :=
   {| recents := recents st; pending := pending st; cons := ins_by cons_lt k c (del_key k (cons st)) |}.
 Definition del_cons (st : cstore) (k : height) : cstore :=
